@@ -153,6 +153,8 @@ def gen_cases(tier):
     for cap in range(0, N + 1):
         for ndest in range(0, cap + 2):
             cases.append(("cp %s %d - 0" % (hx([120] * cap), ndest), "cp|%s|%d|-|0" % (enc_bytes([120] * cap), ndest), "str_copy_null"))
+            # a NULL C string with the "length unknown" sentinel (what the char* result statements pass): blank fill, strlen is not called
+            cases.append(("cp %s %d - -1" % (hx([120] * cap), ndest), "cp|%s|%d|-|-1" % (enc_bytes([120] * cap), ndest), "str_copy_null"))
     return cases
 
 
